@@ -90,7 +90,7 @@ def build(tc):
     out = {"Fn": Fn, "Xi": Xi, "Phi": Phi, "Fn_cov": None, "Xi_cov": None, "Phi_cov": None, "f0": f0, "x0": x0, "p0": p0, "mode_id": mid, "rng": rng}
     if tc.get("cov"):
         m = np.isfinite(Fn)
-        out["Fn_cov"] = np.where(m, rng.uniform(1e-6, 1e-2, size=(R, C)), np.nan)
+        out["Fn_cov"] = np.where(m, rng.uniform(1e-6, 1e-2, size=(R, C)) * tc.get("covscale", 1.0), np.nan)  # covscale: very uncertain poles
         out["Xi_cov"] = np.where(m, rng.uniform(1e-6, 1e-2, size=(R, C)), np.nan)
         out["Phi_cov"] = np.where(m[:, :, None], rng.uniform(1e-6, 1e-2, size=(R, C, nch)), np.nan)
     return out
